@@ -280,3 +280,16 @@ package layout
 //@   loop 1:
 //@     invariant 0 <= i && i <= len(sectionLayout.Paragraphs) && !isnil(sectionLayout) && parasum(allParagraphs, len(allParagraphs)) == secsum(r.Sections, $i) + parasum(sectionLayout.Paragraphs, i)
 //@     decreases len(sectionLayout.Paragraphs) - i
+
+// ---- C02: the gap histogram is sized by the page width of the file: only a usable width (0 < w <= maxPageExtent,
+// which excludes NaN) sizes an allocation ----
+//@ func (*ColumnDetector) findVerticalGaps results (res)
+//@   property C02
+//@   flags nosafety
+//@   callsite make(k) requires histogram_is_bounded: k <= 200001
+//@   loop 1:
+//@     decreases endBucket + 1 - b
+//@   loop 2:
+//@     decreases endBucket + 1 - b
+//@   loop 3:
+//@     decreases endBucket + 1 - b
